@@ -536,5 +536,9 @@ func relGenerate(r *Rand, mode string, n int) [][]string {
 	return cases
 }
 
-func (releaseComp) Generate(r *Rand, tier string, n int) [][]string  { return relGenerate(r, "release", n) }
-func (recoveryComp) Generate(r *Rand, tier string, n int) [][]string { return relGenerate(r, "recovery", n) }
+func (releaseComp) Generate(r *Rand, tier string, n int) [][]string {
+	return relGenerate(r, "release", n)
+}
+func (recoveryComp) Generate(r *Rand, tier string, n int) [][]string {
+	return relGenerate(r, "recovery", n)
+}
